@@ -69,6 +69,9 @@ func VerifT3Replay() {
 	case "structopts":
 		verifT3StructOptions()
 		return
+	case "unquoteflags":
+		verifT3UnquoteFlags()
+		return
 	case "mapkey":
 		text = `{"` + strconv.FormatUint(v.Uint64("integer"), 10) + `":1}`
 	case "double":
@@ -447,6 +450,31 @@ func verifT3Tokens() {
 // and unknown keys, decoded into struct{A int8; B bool}: an error is returned exactly when
 // DisallowUnknownFields is set and some key matches no field under the matching rule in force
 // (exact; or case-insensitive unless CaseSensitive).
+// verifT3UnquoteFlags: an invalid \\u escape (a lone surrogate) is an error exactly when
+// UseUnicodeErrors is set and U+FFFD otherwise, for every kind of destination that reaches
+// native unquote: string, interface{}, map key, and a `,string` string field (unquoted twice).
+func verifT3UnquoteFlags() {
+	_ = v.Uint64("flags_df")
+	type qs struct {
+		S string `json:",string"`
+	}
+	for _, strict := range []bool{false, true} {
+		api := Config{UseUnicodeErrors: strict}.Froze()
+		var s string
+		err := api.UnmarshalFromString(`"x\ud800y"`, &s)
+		v.Assert((err != nil) == strict, fmt.Sprintf("UseUnicodeErrors=%v: string destination: err=%v", strict, err))
+		var i interface{}
+		err = api.UnmarshalFromString(`"x\ud800y"`, &i)
+		v.Assert((err != nil) == strict, fmt.Sprintf("UseUnicodeErrors=%v: interface{} destination: err=%v", strict, err))
+		var m map[string]interface{}
+		err = api.UnmarshalFromString(`{"k\ud800":"v\ud800"}`, &m)
+		v.Assert((err != nil) == strict, fmt.Sprintf("UseUnicodeErrors=%v: map[string]interface{} destination: err=%v", strict, err))
+		var q qs
+		err = api.UnmarshalFromString(`{"S":"\"x\\ud800y\""}`, &q)
+		v.Assert((err != nil) == strict, fmt.Sprintf("UseUnicodeErrors=%v: `,string` string field: err=%v value=%q", strict, err, q.S))
+	}
+}
+
 func verifT3StructOptions() {
 	_ = v.Uint64("flags")
 	type doc struct {
